@@ -1,6 +1,7 @@
 package rules
 
 import (
+	"strings"
 	"fmt"
 	"go/types"
 	"sort"
@@ -68,34 +69,7 @@ func c13ErrVal(r *fw.Run, p *fw.Program) {
 	if len(rendered) < 3 {
 		ru.Undecided("anchor:rendered-fields", "", fmt.Sprintf("only %d error fields rendered through TypeErrorPreview found (expected FuncTypeError.V, FuncArgTypeError.V, BinopTypeError.L/R ...)", len(rendered)))
 	}
-	isJQType := func(t types.Type) bool {
-		if types.Implements(t, jqValueIface) {
-			return true
-		}
-		switch u := t.Underlying().(type) {
-		case *types.Basic:
-			switch u.Kind() {
-			case types.Bool, types.Int, types.Float64, types.String, types.UntypedNil, types.UntypedBool, types.UntypedInt, types.UntypedFloat, types.UntypedString:
-				return t == types.Typ[u.Kind()] || u.Info()&types.IsUntyped != 0
-			}
-		case *types.Pointer:
-			if n, ok := u.Elem().(*types.Named); ok && n.Obj().Pkg() != nil && n.Obj().Pkg().Path() == "math/big" && n.Obj().Name() == "Int" {
-				return true
-			}
-		case *types.Slice:
-			if i, ok := u.Elem().Underlying().(*types.Interface); ok && i.Empty() {
-				_, named := t.(*types.Named)
-				return !named
-			}
-		case *types.Map:
-			k, kok := u.Key().(*types.Basic)
-			if i, ok := u.Elem().Underlying().(*types.Interface); ok && i.Empty() && kok && k.Kind() == types.String {
-				_, named := t.(*types.Named)
-				return !named
-			}
-		}
-		return false
-	}
+	isJQType := func(t types.Type) bool { return c13IsJQType(t, jqValueIface) }
 	var bad func(v ssa.Value, seen map[ssa.Value]bool) string
 	bad = func(v ssa.Value, seen map[ssa.Value]bool) string {
 		if seen[v] {
@@ -241,4 +215,169 @@ func c13RecvField(v ssa.Value, recv *ssa.Parameter) (c13Field, bool) {
 		}
 	}
 	return c13Field{}, false
+}
+
+func c13IsJQType(t types.Type, jqValueIface *types.Interface) bool {
+		if types.Implements(t, jqValueIface) {
+			return true
+		}
+		switch u := t.Underlying().(type) {
+		case *types.Basic:
+			switch u.Kind() {
+			case types.Bool, types.Int, types.Float64, types.String, types.UntypedNil, types.UntypedBool, types.UntypedInt, types.UntypedFloat, types.UntypedString:
+				return t == types.Typ[u.Kind()] || u.Info()&types.IsUntyped != 0
+			}
+		case *types.Pointer:
+			if n, ok := u.Elem().(*types.Named); ok && n.Obj().Pkg() != nil && n.Obj().Pkg().Path() == "math/big" && n.Obj().Name() == "Int" {
+				return true
+			}
+		case *types.Slice:
+			if i, ok := u.Elem().Underlying().(*types.Interface); ok && i.Empty() {
+				_, named := t.(*types.Named)
+				return !named
+			}
+		case *types.Map:
+			k, kok := u.Key().(*types.Basic)
+			if i, ok := u.Elem().Underlying().(*types.Interface); ok && i.Empty() && kok && k.Kind() == types.String {
+				_, named := t.(*types.Named)
+				return !named
+			}
+		}
+		return false
+	}
+
+func c13JQValueIface(p *fw.Program) *types.Interface {
+	for _, pk := range p.SSA.AllPackages() {
+		if pk.Pkg.Path() == "github.com/wader/gojq" {
+			if o := pk.Pkg.Scope().Lookup("JQValue"); o != nil {
+				i, _ := o.Type().Underlying().(*types.Interface)
+				return i
+			}
+		}
+	}
+	return nil
+}
+
+// ---------------------------------------------------------------------------
+// C13.jqtype: containers handed to jq hold only jq values
+//
+// gojq panics ("invalid type") or recurses without end on a Go value it does not know ([]string, a struct, an
+// int64 ...). Rule: in jq-callable Go code, every value boxed into an element of a map[string]any or []any
+// (map update, indexed store, append, composite literal) is of a jq type: bool, int, float64, string, *big.Int,
+// []any, map[string]any, a JQValue, or nil.
+func c13JQType(r *fw.Run, p *fw.Program, scope []*ssa.Function) {
+	ru := r.Rule("C13.jqtype", "in jq-callable Go code every value boxed into an element of a map[string]any or []any (map update, indexed store, append / variadic literal) has a jq type (bool, int, float64, string, *big.Int, []any, map[string]any, JQValue, nil): gojq panics with 'invalid type' or overflows the stack on anything else", 80)
+	iface := c13JQValueIface(p)
+	if iface == nil {
+		ru.Undecided("anchor:JQValue", "", "gojq.JQValue not found")
+		return
+	}
+	isAnyElem := func(t types.Type) bool {
+		i, ok := t.Underlying().(*types.Interface)
+		return ok && i.Empty()
+	}
+	for _, fn := range scope {
+		if fn.TypeParams().Len() > 0 && len(fn.TypeArgs()) == 0 {
+			continue
+		}
+		ord := 0
+		check := func(ins ssa.Instruction, v ssa.Value, where string) {
+			mi, ok := v.(*ssa.MakeInterface)
+			if !ok {
+				return
+			}
+			ord++
+			key := fmt.Sprintf("%s|%s#%d", fw.ShortFn(fn), where, ord)
+			t := mi.X.Type()
+			if c13IsJQType(t, iface) {
+				ru.Ok(key, p.Rel(ins.Pos()), "jq type "+shortType(t))
+				return
+			}
+			if types.Implements(t, errorIface()) || types.Implements(types.NewPointer(t), errorIface()) {
+				ru.Ok(key, p.Rel(ins.Pos()), "an error value (gojq turns it into a jq error)")
+				return
+			}
+			if reason, ok := c13JQTypeExceptions[key]; ok {
+				ru.Except(key, p.Rel(ins.Pos()), reason)
+				return
+			}
+			ru.Fail(key, p.Rel(ins.Pos()), "a "+shortType(t)+" is stored as "+where+" of a jq container: gojq does not know this Go type (panic 'invalid type' / endless recursion when the value is used or printed)")
+		}
+		fw.EachInstr(fn, func(ins ssa.Instruction) {
+			switch x := ins.(type) {
+			case *ssa.MapUpdate:
+				if m, ok := x.Map.Type().Underlying().(*types.Map); ok && isAnyElem(m.Elem()) {
+					if k, ok := m.Key().Underlying().(*types.Basic); ok && k.Kind() == types.String {
+						check(x, x.Value, "map value")
+					}
+				}
+			case *ssa.Store:
+				if ia, ok := x.Addr.(*ssa.IndexAddr); ok {
+					var et types.Type
+					switch ct := ia.X.Type().Underlying().(type) {
+					case *types.Slice:
+						et = ct.Elem()
+					case *types.Pointer:
+						if at, ok := ct.Elem().Underlying().(*types.Array); ok {
+							et = at.Elem()
+						}
+					}
+					if et != nil && isAnyElem(et) {
+						// only slices/arrays that are (or become) []any values handed on; variadic fmt args excluded
+						if c13FeedsOnlyFormatting(ia) {
+							return
+						}
+						check(x, x.Val, "slice element")
+					}
+				}
+			}
+		})
+	}
+}
+
+var c13JQTypeExceptions = map[string]string{
+	"(*pkg/interp.Interp)._decode$2|map value#1": "int64 inside the progress object: it is only used as the INPUT of a nested evaluation (EvalFuncValues -> gojq Run), where gojq normalises every Go integer and float kind to int/float64/*big.Int (normalizeNumbers); not a function result",
+	"(*pkg/interp.Interp)._decode$2|map value#2": "same progress object (total_size)",
+}
+
+var errIface *types.Interface
+
+func errorIface() *types.Interface {
+	if errIface == nil {
+		errIface = types.Universe.Lookup("error").Type().Underlying().(*types.Interface)
+	}
+	return errIface
+}
+
+// c13FeedsOnlyFormatting: the backing array of this element is the variadic argument list of a call outside fq
+// (fmt.Sprintf, fmt.Errorf, log ...) or of an fq formatting helper (Fatalf/Errorf): not a jq container.
+func c13FeedsOnlyFormatting(ia *ssa.IndexAddr) bool {
+	al, ok := ia.X.(*ssa.Alloc)
+	if !ok || al.Referrers() == nil {
+		return false
+	}
+	for _, rf := range *al.Referrers() {
+		sl, ok := rf.(*ssa.Slice)
+		if !ok || sl.Referrers() == nil {
+			continue
+		}
+		for _, u := range *sl.Referrers() {
+			c, ok := u.(ssa.CallInstruction)
+			if !ok {
+				return false
+			}
+			cal := c.Common().StaticCallee()
+			if cal == nil {
+				return false
+			}
+			if cal.Signature.Variadic() && len(c.Common().Args) > 0 && c.Common().Args[len(c.Common().Args)-1] == ssa.Value(sl) {
+				name := cal.Name()
+				if !fw.InFq(cal) || strings.HasSuffix(name, "f") || name == "NewIter" && false {
+					continue
+				}
+			}
+			return false
+		}
+	}
+	return true
 }
